@@ -1,5 +1,5 @@
 # C16 - Serialization decoders recover exactly the value that was encoded
-import os, json, copy, struct, collections, time
+import os, json, copy, struct, collections, time, concurrent.futures
 import vlib
 from vlib import Inconclusive
 
@@ -196,29 +196,44 @@ def run(ctx):
         ctx.cov['restricted_to'] = only
 
     # ---- 1. GEN: every encoding of every value of the universe, per format
-    cases = []
-    per_format = collections.OrderedDict()
-    for f in formats:
-        cfg = ('SPECIFICATION Spec\nCONSTANTS Format = "%s"\n Part = "all"\n Wide = %s\nCONSTRAINT Emit\nCHECK_DEADLOCK FALSE\n' % (f, wide))
-        g = ctx.tlc('WireGen', 'gen_%s.cfg' % f, cfg_text=cfg, timeout=1500, workers=4)
-        ctx.tlc_expect_ok(g, 'WireGen ' + f)
-        if len(g.printed) < 100:
-            raise Inconclusive('GEN produced too few cases for ' + f)
-        per_format[f] = dict(gen_cases=len(g.printed), sim_cases=0)
-        cases += g.printed
-
     # ---- 2. SIM: deeper values composed with the same constructors; composition checked against Enc (bounded, exhaustive)
-    for f in [f for f in formats if f in SIM_FORMATS]:
+    # the TLC runs are independent of each other: a few at a time
+    def gen(f):
+        cfg = ('SPECIFICATION Spec\nCONSTANTS Format = "%s"\n Part = "all"\n Wide = %s\nCONSTRAINT Emit\nCHECK_DEADLOCK FALSE\n' % (f, wide))
+        return ctx.tlc('WireGen', 'gen_%s.cfg' % f, cfg_text=cfg, timeout=1500, workers=4)
+
+    def simmc(f):
         cfg = ('SPECIFICATION Spec\nCONSTANTS Format = "%s"\n MaxDepth = %d\n Chunks = 0\n Bounded = TRUE\nINVARIANT StepInEnc\nCHECK_DEADLOCK FALSE\n'
                % (f, 1 if f in ('msgpack', 'cbor') else 2))
-        m = ctx.tlc('WireSim', 'simmc_%s.cfg' % f, cfg_text=cfg, timeout=900, workers=4)
-        ctx.tlc_expect_ok(m, 'WireSim composition is inside Enc (%s)' % f)
+        return ctx.tlc('WireSim', 'simmc_%s.cfg' % f, cfg_text=cfg, timeout=900, workers=2)
+
+    def sim(f):
         cfg = ('SPECIFICATION Spec\nCONSTANTS Format = "%s"\n MaxDepth = %d\n Chunks = 1\n Bounded = FALSE\nCHECK_DEADLOCK FALSE\n'
                % (f, 6 if thorough else 5))
-        s = ctx.tlc('WireSim', 'sim_%s.cfg' % f, cfg_text=cfg, simulate='num=%d' % (1200 if thorough else 120), depth=10, timeout=1500, count=False)
-        ctx.tlc_expect_ok(s, 'WireSim SIM ' + f)
-        per_format[f]['sim_cases'] = len(s.printed)
-        cases += s.printed
+        return ctx.tlc('WireSim', 'sim_%s.cfg' % f, cfg_text=cfg, simulate='num=%d' % (1200 if thorough else 100), depth=10, timeout=1500, count=False)
+
+    sims = [f for f in formats if f in SIM_FORMATS]
+    with concurrent.futures.ThreadPoolExecutor(max_workers=4) as ex:
+        futs = ([('gen', f, ex.submit(gen, f)) for f in formats] + [('simmc', f, ex.submit(simmc, f)) for f in sims]
+                + [('sim', f, ex.submit(sim, f)) for f in sims])
+        results = [(kind, f, fu.result()) for kind, f, fu in futs]
+    cases = []
+    per_format = collections.OrderedDict()
+    for kind, f, res in results:
+        if kind == 'gen':
+            ctx.tlc_expect_ok(res, 'WireGen ' + f)
+            if len(res.printed) < 100:
+                raise Inconclusive('GEN produced too few cases for ' + f)
+            per_format[f] = dict(gen_cases=len(res.printed), sim_cases=0)
+            cases += res.printed
+    for kind, f, res in results:
+        if kind == 'simmc':
+            ctx.tlc_expect_ok(res, 'WireSim composition is inside Enc (%s)' % f)
+            per_format[f]['sim_composition_states_checked'] = res.distinct
+        elif kind == 'sim':
+            ctx.tlc_expect_ok(res, 'WireSim SIM ' + f)
+            per_format[f]['sim_cases'] = len(res.printed)
+            cases += res.printed
     cpath = os.path.join(ctx.build, 'cases.ndjson')
     vlib.write_ndjson(cpath, cases)
 
